@@ -1,7 +1,11 @@
 import Driver.Common
 import FranzVerif.Model.Txn
-/-! Sub-driver C11 (`txn` scenarios). -/
-open Driver Model.Txn
+/-! Sub-driver C11: `txn` scenarios (monitor `Model.Txn`, the records of a transactional producer) and `tofs`
+scenarios (monitor `Model.TxnOffsets`, the offsets and records of GroupTransactSession transactions). -/
+open Driver
+
+namespace T
+open Model.Txn
 
 def parseEv (t : String) : Option (Option Ev) :=
   match t.splitOn ":" with
@@ -25,11 +29,7 @@ def refusals : St → List Ev → List String → List String
     | none => refusals (apply s e) es acc
     | some r => refusals (apply s e) es (r :: acc)
 
-def handle (line : String) : String :=
-  let (_, impl) := splitBar line
-  if impl.startsWith "PANIC" || impl.startsWith "HANG" || impl.startsWith "ERR" then
-    s!"* | 0:C11.scenario-{((impl.splitOn ":").head!.splitOn " ").head!.toLower} | 1"
-  else
+def handle (impl : String) : String :=
   match toks impl with
   | [] => "!empty | - | 0"
   | _cfg :: ets =>
@@ -43,5 +43,80 @@ def handle (line : String) : String :=
     match rs with
     | [] => s!"* | 1 | {nt}"
     | r :: _ => s!"* | 0:{r} | {nt}"
+
+end T
+
+namespace O
+open Model.TxnOffsets
+
+def parseRes (r : String) : Option Res :=
+  if r == "committed" then some .committed else if r == "aborted" then some .aborted else if r == "err" then some .error else none
+
+def parseEv (t : String) : Option (Option Ev) :=
+  match t.splitOn ":" with
+  | ["Ms", m, slot] => do some (some (.memberStart (← m.toNat?) (← slot.toNat?)))
+  | ["Mx", m] => do some (some (.memberStop (← m.toNat?)))
+  | ["Mk", m, t] => do some (some (.memberKill (← m.toNat?) (← t.toNat?)))
+  | ["B", m, t, r] => do some (some (.begin_ (← m.toNat?) (← t.toNat?) (r == "ok")))
+  | ["W", t, p, o] => do some (some (.want (← t.toNat?) (← p.toNat?) (← o.toInt?)))
+  | ["P", t, id] => do some (some (.produce (← t.toNat?) (← id.toNat?)))
+  | ["R", id, r] => do some (some (.promise (← id.toNat?) (r == "ok")))
+  | ["Es", m, t, c] => do some (some (.endStart (← m.toNat?) (← t.toNat?) (c == "c")))
+  | ["Ee", m, t, r] => do some (some (.endDone (← m.toNat?) (← t.toNat?) (← parseRes r)))
+  | ["Er", m, t, r] => do some (some (.retry (← m.toNat?) (← t.toNat?) (← parseRes r)))
+  | ["G", m, t, p, o] => do some (some (.observe (← m.toNat?) (← t.toNat?) (← p.toNat?) (← o.toInt?)))
+  | ["X", _, _, "unknown"] => some none
+  | ["X", m, t, st] => do some (some (.coord (← m.toNat?) (← t.toNat?) (st == "open")))
+  | ["F", key, _nth, act, t, c] => do some (some (.fault (← key.toNat?) (← act.toNat?) (← t.toNat?) (c == "1")))
+  | ["Gf", p, o] => do some (some (.final (← p.toNat?) (← o.toInt?)))
+  | ["O", p, o, id] => do some (some (.output (← p.toNat?) (← o.toNat?) (← id.toNat?)))
+  | ["Q"] => some (some .quiesce)
+  | ["ERRclient"] => some (some .incomplete)
+  | ["ERRreadback"] => some (some .incomplete)
+  | ["ERRinput"] => some (some .incomplete)
+  | ["ERRobserve"] => some (some .incomplete)
+  | _ => none
+
+def refusals : St → List Ev → List String → List String
+  | _, [], acc => acc.reverse
+  | s, e :: es, acc =>
+    match check s e with
+    | none => refusals (apply s e) es acc
+    | some r => refusals (apply s e) es (r :: acc)
+
+/-- `cfg:<members>:<parts>:<flow>` -/
+def isSingle (cfg : String) : Bool :=
+  match cfg.splitOn ":" with
+  | ["cfg", m, _, _] => m == "1"
+  | _ => false
+
+def handle (impl : String) : String :=
+  match toks impl with
+  | [] => "!empty | - | 0"
+  | cfg :: ets =>
+    let evs := ets.map parseEv
+    if evs.any (·.isNone) then "!bad-event | - | 0" else
+    let es := (evs.filterMap id).filterMap id
+    let rs := refusals { single := isSingle cfg } es []
+    let nFault := (es.filter (fun e => match e with | .fault _ _ _ _ => true | _ => false)).length
+    let nNot := (es.filter (fun e => match e with | .endDone _ _ r => r != .committed | .memberKill _ _ => true | _ => false)).length
+    -- a committed transaction that produced nothing (offsets only)
+    let produced := es.filterMap (fun e => match e with | .produce t _ => some t | _ => none)
+    let nOnly := (es.filter (fun e => match e with | .endDone _ t r => r == .committed && !produced.contains t | _ => false)).length
+    let nt := boolStr (decide (nFault > 0) || decide (nNot > 0) || decide (nOnly > 0))
+    -- the first refusal that is not the listed finding, if there is one (so that the listed finding does not hide another class)
+    match rs.filter (· != "C11.unconfirmed-commit-took-effect"), rs with
+    | r :: _, _ => s!"* | 0:{r} | {nt}"
+    | [], r :: _ => s!"* | 0:{r} | {nt}"
+    | [], [] => s!"* | 1 | {nt}"
+
+end O
+
+def handle (line : String) : String :=
+  let (op, impl) := splitBar line
+  if impl.startsWith "PANIC" || impl.startsWith "HANG" || impl.startsWith "ERR" then
+    s!"* | 0:C11.scenario-{((impl.splitOn ":").head!.splitOn " ").head!.toLower} | 1"
+  else if op.startsWith "tofs" then O.handle impl
+  else T.handle impl
 
 def main : IO UInt32 := runLoop () (fun _ line => ((), handle line))
